@@ -212,7 +212,7 @@ func docArchTable(repo string) (model.ArchTable, error) {
 	return tab, nil
 }
 
-var c02Arches = []string{"amd64", "all", "386", "arm5", "arm6", "arm7", "arm64", "mips", "mipsle", "mips64le", "ppc64le", "s390", "mipssoftfloat", "mipslehardfloat", "riscv64", "loong64"}
+var c02Arches = []string{"amd64", "armv7", "x86_64_v3", "all", "386", "arm5", "arm6", "arm7", "arm64", "mips", "mipsle", "mips64le", "ppc64le", "s390", "mipssoftfloat", "mipslehardfloat", "riscv64", "loong64"}
 
 var c02Values = []string{"plain", "Ünï cödé ✓", "p:u=n#c t%s"}
 
@@ -225,6 +225,9 @@ func relItems(kind string, variant string) []model.RelItem {
 		return []model.RelItem{{Name: p + "1", Op: ">=", Ver: "1.0"}, {Name: p + "2"}, {Name: p + "3", Op: "<", Ver: "2.0-1"}, {Name: p + "4", Op: "=", Ver: "3"}}
 	case "twice":
 		return []model.RelItem{{Name: p + "1", Op: ">=", Ver: "1.2"}, {Name: p + "1", Op: "<", Ver: "2.0"}, {Name: p + "2"}}
+	case "ops":
+		// every relational operator
+		return []model.RelItem{{Name: p + "1", Op: "<=", Ver: "1.0"}, {Name: p + "2", Op: ">", Ver: "3.0"}, {Name: p + "3", Op: "<", Ver: "2"}, {Name: p + "4", Op: ">=", Ver: "0.9~rc1"}, {Name: p + "5", Op: "=", Ver: "1:2.0-3"}}
 	case "rpmcaps":
 		// rpm capability names: parentheses are part of the name (emitted for rpm only)
 		return []model.RelItem{{Name: "perl(Foo::Bar)"}, {Name: "pkgconfig(zlib)", Op: ">=", Ver: "1.2"}, {Name: "libc.so.6()(64bit)"}, {Name: "/bin/sh"}, {Name: "config(" + p + ")", Op: "=", Ver: "1.0-1"}}
@@ -254,6 +257,7 @@ func relItems(kind string, variant string) []model.RelItem {
 func c02Descriptions() []string {
 	return []string{
 		"One line",
+		"Ends with a period.\nThe body ends with one too.",
 		"Synopsis line\nsecond line",
 		"Synopsis\n\nafter a blank line\nlast",
 		"Trailing newline\nbody\n",
@@ -517,7 +521,7 @@ func enumC02(env *engine.Env, yield func(any) bool) {
 			}
 		}
 	}
-	for _, variant := range []string{"plain", "versioned", "twice", "single", "ownname"} {
+	for _, variant := range []string{"plain", "versioned", "twice", "single", "ownname", "ops"} {
 		for i, k1 := range model.RelKinds {
 			c := baseMeta()
 			c.Rel = map[string][]model.RelItem{k1: relItems(k1, variant)}
